@@ -727,5 +727,137 @@ func extractC04Guards(c *Ctx) error {
 	sort.Strings(callers)
 	c.P("Definition quorum_callers : list string := %s.", CoqStrList(callers))
 	c.Info("quorum_callers", callers)
+	return extractC04Submission(c)
+}
+
+// ---- the submission-time check and the order of the consensus end-blocker ----
+
+func extractC04Submission(c *Ctx) error {
+	files, err := c.ParseDir("x/consensus/keeper")
+	if err != nil {
+		return err
+	}
+	// validateEvidenceProof: a sequence of `if <cond> { return <error> }`, one `var x Hashable`, a final `return nil`;
+	// one of the conditions must be `_, err := x.BytesToHash(); err != nil` on the variable UnpackAny filled.
+	vd := FindFuncIn(files, "Keeper", "validateEvidenceProof")
+	if vd == nil {
+		return fmt.Errorf("Keeper.validateEvidenceProof not found")
+	}
+	var shape []string
+	unpacked, hashed := "", false
+	for i, st := range vd.Body.List {
+		switch s := st.(type) {
+		case *ast.DeclStmt:
+			shape = append(shape, c.Src(s))
+		case *ast.IfStmt:
+			if s.Else != nil || len(s.Body.List) != 1 {
+				return fmt.Errorf("validateEvidenceProof: `if %s` is not a plain refusal (unknown shape)", c.Src(s.Cond))
+			}
+			rs, ok := s.Body.List[0].(*ast.ReturnStmt)
+			if !ok || len(rs.Results) != 1 || c.Src(rs.Results[0]) == "nil" {
+				return fmt.Errorf("validateEvidenceProof: `if %s` does not return an error (unknown shape)", c.Src(s.Cond))
+			}
+			g := c.Src(s.Cond)
+			if s.Init != nil {
+				g = c.Src(s.Init) + "; " + g
+				for _, ce := range Calls(s.Init, "UnpackAny") {
+					if len(ce.Args) == 2 {
+						unpacked = strings.TrimPrefix(c.Src(ce.Args[1]), "&")
+					}
+				}
+				if unpacked != "" && g == "_, err := "+unpacked+".BytesToHash(); err != nil" {
+					hashed = true
+				}
+			}
+			shape = append(shape, "if "+g+" { return error }")
+		case *ast.ReturnStmt:
+			if i != len(vd.Body.List)-1 || len(s.Results) != 1 || c.Src(s.Results[0]) != "nil" {
+				return fmt.Errorf("validateEvidenceProof: return %q not understood", c.Src(s))
+			}
+			shape = append(shape, "return nil")
+		default:
+			return fmt.Errorf("validateEvidenceProof: statement %q not understood (unknown shape)", c.Src(st))
+		}
+	}
+	if !hashed {
+		return fmt.Errorf("validateEvidenceProof does not refuse a proof whose BytesToHash fails (`if _, err := <unpacked>.BytesToHash(); err != nil { return … }` not found): stored evidence is no longer known to be hashable")
+	}
+	ad := FindFuncIn(files, "Keeper", "AddMessageEvidence")
+	if ad == nil {
+		return fmt.Errorf("Keeper.AddMessageEvidence not found")
+	}
+	vc, ac := Calls(ad.Body, "validateEvidenceProof"), Calls(ad.Body, "AddEvidence")
+	if len(vc) != 1 || len(ac) != 1 || vc[0].Pos() > ac[0].Pos() {
+		return fmt.Errorf("AddMessageEvidence: validateEvidenceProof must be called once, before the one AddEvidence")
+	}
+	if p := c.Src(vc[0]); !strings.Contains(p, "msg.GetProof()") {
+		return fmt.Errorf("AddMessageEvidence: validateEvidenceProof is not applied to msg.GetProof(): %s", p)
+	}
+	c.P("(* x/consensus/keeper: validateEvidenceProof, called by AddMessageEvidence before AddEvidence *)")
+	c.P("Definition evidence_validation : list string := %s.", CoqStrList(shape))
+	c.Info("evidence_validation", shape)
+
+	// consensus AppModule.EndBlock: keeper calls in order; the pruning condition
+	mf, err := c.Parse("x/consensus/module.go")
+	if err != nil {
+		return err
+	}
+	eb := FindFunc(mf, "AppModule", "EndBlock")
+	if eb == nil {
+		return fmt.Errorf("consensus AppModule.EndBlock not found")
+	}
+	var calls []string
+	pruneCond, pruneAge := "", ""
+	ast.Inspect(eb.Body, func(n ast.Node) bool {
+		switch x := n.(type) {
+		case *ast.IfStmt:
+			if len(Calls(x.Body, "PruneOldMessages")) == 1 && x.Init == nil {
+				pruneCond = c.Src(x.Cond)
+			}
+		case *ast.CallExpr:
+			if se, ok := x.Fun.(*ast.SelectorExpr); ok && strings.HasSuffix(c.Src(se.X), ".keeper") && se.Sel.Name != "Logger" {
+				calls = append(calls, se.Sel.Name)
+				if se.Sel.Name == "PruneOldMessages" && len(x.Args) == 2 {
+					pruneAge = c.Src(x.Args[1])
+				}
+			}
+		}
+		return true
+	})
+	want := []string{"CheckAndProcessEstimatedMessages", "CheckAndProcessAttestedMessages", "PruneOldMessages"}
+	if strings.Join(calls, ",") != strings.Join(want, ",") {
+		return fmt.Errorf("consensus EndBlock: keeper calls are %v, expected %v (estimate and attest before prune): unknown shape", calls, want)
+	}
+	var every int
+	if _, err := fmt.Sscanf(pruneCond, "ctx.BlockHeight()%%%d == 0", &every); err != nil || every <= 0 {
+		return fmt.Errorf("consensus EndBlock: pruning condition %q not understood", pruneCond)
+	}
+	if _, err := strconv.Atoi(pruneAge); err != nil {
+		return fmt.Errorf("consensus EndBlock: pruning age %q not understood", pruneAge)
+	}
+	of, err := c.Parse("x/consensus/keeper/cleanup.go")
+	if err != nil {
+		return err
+	}
+	od := FindFunc(of, "Keeper", "getMessagesOlderThan")
+	older := ""
+	if od != nil {
+		ast.Inspect(od.Body, func(n ast.Node) bool {
+			if fl, ok := n.(*ast.FuncLit); ok && len(fl.Body.List) == 1 {
+				if rs, ok := fl.Body.List[0].(*ast.ReturnStmt); ok && len(rs.Results) == 1 {
+					older = c.Src(rs.Results[0])
+				}
+			}
+			return true
+		})
+	}
+	if older != "bh-val.GetAddedAtBlockHeight() > blockAge" {
+		return fmt.Errorf("getMessagesOlderThan: age test %q not understood", older)
+	}
+	c.P("(* x/consensus/module.go EndBlock *)")
+	c.P("Definition endblock_calls : list string := %s.", CoqStrList(calls))
+	c.P("Definition prune_every : Z := %d.", every)
+	c.P("Definition prune_age : Z := %s.", pruneAge)
+	c.Info("endblock_calls", calls)
 	return nil
 }
